@@ -7,6 +7,8 @@
  R5 float -> integer conversion rounds before the cast
  R6 third-party names reachable from export/import exist in the installed libraries
  R7 the pickle exporter restores Path.__reduce__ in a finally
+ R8 channels_to_back rolls axis 0 to the end
+ R9 __setstate__ hooks install the whole state and only migrate legacy keys
 """
 import ast
 
@@ -585,7 +587,142 @@ def rule_r8(p, res):
             "exchanges the spatial axes, so exported colour images come out transposed")
 
 
-RULES = [rule_r1, rule_r2, rule_r3, rule_r4, rule_r5, rule_r6, rule_r7, rule_r8]
+def _setstate_walk(body, guards, out):
+    """(stmt, guards) for every statement of a body; guards = [(test expr, polarity, branch body)]"""
+    for st in body:
+        out.append((st, guards))
+        if isinstance(st, ast.If):
+            _setstate_walk(st.body, guards + [(st.test, True, st.body)], out)
+            _setstate_walk(st.orelse, guards + [(st.test, False, st.orelse)], out)
+        elif isinstance(st, (ast.For, ast.While)):
+            _setstate_walk(st.body, guards, out)
+            _setstate_walk(st.orelse, guards, out)
+        elif isinstance(st, ast.With):
+            _setstate_walk(st.body, guards, out)
+        elif isinstance(st, ast.Try):
+            for b in [st.body, st.orelse, st.finalbody] + [h.body for h in st.handlers]:
+                _setstate_walk(b, guards, out)
+
+
+def _membership(test, stv):
+    """(key, present?) when `test` is `'k' in st` / `'k' not in st` / `not ('k' in st)` / hasattr(self, 'k')"""
+    neg = False
+    while isinstance(test, ast.UnaryOp) and isinstance(test.op, ast.Not):
+        neg = not neg
+        test = test.operand
+    if isinstance(test, ast.Compare) and len(test.ops) == 1 and isinstance(test.left, ast.Constant) and isinstance(test.left.value, str) \
+            and isinstance(test.comparators[0], ast.Name) and test.comparators[0].id == stv:
+        if isinstance(test.ops[0], ast.In):
+            return test.left.value, not neg
+        if isinstance(test.ops[0], ast.NotIn):
+            return test.left.value, neg
+    if isinstance(test, ast.Call) and (dotted(test.func) or "") == "hasattr" and len(test.args) == 2 and norm(test.args[0]) == "self" \
+            and isinstance(test.args[1], ast.Constant):
+        return test.args[1].value, not neg
+    return None
+
+
+def _removed_keys(body, stv):
+    out = set()
+    for st in body:
+        for n in ast.walk(st):
+            if isinstance(n, ast.Delete):
+                for t in n.targets:
+                    if isinstance(t, ast.Subscript) and norm(t.value) == stv and isinstance(t.slice, ast.Constant):
+                        out.add(t.slice.value)
+            elif isinstance(n, ast.Call) and isinstance(n.func, ast.Attribute) and n.func.attr == "pop" and norm(n.func.value) == stv \
+                    and n.args and isinstance(n.args[0], ast.Constant):
+                out.add(n.args[0].value)
+    return out
+
+
+def rule_r9(p, res):
+    r = res.rule("C16.R9", "unpickling hooks install the whole pickled state and only migrate legacy keys: no __setstate__ overwrites a value the pickle carries")
+    hooks = [f for f in p.all_functions() if f.name == "__setstate__" and f.cls is not None and "/test/" not in f.module.relpath.replace("\\", "/")]
+    if len(hooks) < 3:
+        raise AnalysisError("C16.R9: only %d __setstate__ hooks found (PCAVectorModel, LabelledPointUndirectedGraph, LandmarkManager expected)" % len(hooks))
+    for f in sorted(hooks, key=lambda x: x.qualname):
+        r.instance(f)
+        if len(f.params) != 2:
+            raise AnalysisError("C16.R9: %s does not take (self, state)" % f.qualname)
+        stv = f.params[1]
+        stmts = []
+        _setstate_walk(f.node.body, [], stmts)
+        # 1. the state is installed on every path: an unconditional statement of the body
+        installed = False
+        for st in f.node.body:
+            if isinstance(st, ast.Assign) and len(st.targets) == 1 and norm(st.targets[0]) == "self.__dict__" and norm(st.value) == stv:
+                installed = True
+            elif isinstance(st, ast.Expr) and isinstance(st.value, ast.Call) and norm(st.value.func) == "self.__dict__.update" \
+                    and len(st.value.args) == 1 and norm(st.value.args[0]) == stv:
+                installed = True
+            elif isinstance(st, ast.For) and isinstance(st.iter, ast.Call) and norm(st.iter.func) == "%s.items" % stv:
+                if any((isinstance(n, ast.Call) and (dotted(n.func) or "") == "setattr" and n.args and norm(n.args[0]) == "self")
+                       or (isinstance(n, ast.Subscript) and isinstance(n.ctx, ast.Store) and norm(n.value) == "self.__dict__") for n in ast.walk(st)):
+                    installed = True
+        if not installed:
+            cond = [st for st, g in stmts if g and isinstance(st, (ast.Assign, ast.Expr)) and "self.__dict__" in norm(st)]
+            if cond:
+                r.violation(f, cond[0], "%s installs the pickled state only on some paths: objects unpickled on the other paths come back empty" % f.short)
+                continue
+            raise AnalysisError("C16.R9: cannot see how %s installs the state (self.__dict__ = %s / self.__dict__.update(%s))" % (f.qualname, stv, stv))
+        # 2. every store into the state is a migration
+        locals_ = {}
+        for st, guards in stmts:
+            if isinstance(st, ast.Assign) and len(st.targets) == 1 and isinstance(st.targets[0], ast.Name):
+                locals_.setdefault(st.targets[0].id, []).append(st.value)
+        for st, guards in stmts:
+            targets = []
+            if isinstance(st, ast.Assign):
+                targets = [(t, st.value) for t in st.targets]
+            elif isinstance(st, ast.AugAssign):
+                targets = [(st.target, None)]
+            for t, val in targets:
+                key = None
+                if isinstance(t, ast.Subscript) and norm(t.value) in (stv, "self.__dict__") and isinstance(t.slice, ast.Constant) and isinstance(t.slice.value, str):
+                    key = t.slice.value
+                elif isinstance(t, ast.Attribute) and norm(t.value) == "self" and t.attr != "__dict__":
+                    key = t.attr
+                elif isinstance(t, ast.Subscript) and norm(t.value) in (stv, "self.__dict__"):
+                    raise AnalysisError("C16.R9: %s stores under a computed key at line %d" % (f.qualname, st.lineno))
+                if key is None:
+                    continue
+                ok = False
+                for test, pol, branch in guards:
+                    m = _membership(test, stv)
+                    if m is None:
+                        continue
+                    k2, present = m
+                    if not pol:
+                        present = not present
+                    if k2 == key and not present:
+                        ok = True  # default for a key the pickle lacks
+                    if k2 != key and present and k2 in _removed_keys(branch, stv):
+                        ok = True  # legacy key renamed / unpacked and dropped
+                if not ok and val is not None:
+                    nodes, seen, todo = [], set(), [val]
+                    while todo:
+                        e = todo.pop()
+                        for n in ast.walk(e):
+                            nodes.append(n)
+                            if isinstance(n, ast.Name) and n.id not in seen and n.id != stv:
+                                seen.add(n.id)
+                                todo.extend(locals_.get(n.id, ()))
+                    for n in nodes:
+                        if isinstance(n, ast.Subscript) and norm(n.value) in (stv, "self.__dict__") and isinstance(n.slice, ast.Constant) and n.slice.value == key:
+                            ok = True  # same value, converted representation
+                        if isinstance(n, ast.Attribute) and norm(n.value) == "self" and n.attr == key:
+                            ok = True
+                r.check(ok, f, st, "%s overwrites `%s` of the pickled state although the pickle carries it (not under `'%s' not in %s`, not a renamed legacy key, "
+                        "not a conversion of the stored value): the imported object differs from the exported one" % (f.short, key, key, stv))
+        # 3. nothing is removed from the state except legacy keys handled above
+        for st, guards in stmts:
+            for k in _removed_keys([st], stv) if not isinstance(st, (ast.If, ast.For, ast.While, ast.With, ast.Try)) else ():
+                ok = any((_membership(t, stv) or (None, None))[0] == k for t, pol, b in guards)
+                r.check(ok, f, st, "%s drops `%s` from the pickled state without `'%s' in %s` identifying it as a legacy key" % (f.short, k, k, stv))
+
+
+RULES = [rule_r1, rule_r2, rule_r3, rule_r4, rule_r5, rule_r6, rule_r7, rule_r8, rule_r9]
 
 WITNESSES = [
     Witness("C16.W1", "menpo/io/output/base.py", "_export",
@@ -635,4 +772,16 @@ WITNESSES += [
 
 WITNESSES += [
     Witness("C16.W17", "menpo/image/base.py", "channels_to_back", "np.rollaxis(pixels, 0, pixels.ndim)", "np.swapaxes(pixels, 0, -1)", rule="C16.R8", construct="channels_to_back", note="seeded change R5-C16-B"),
+]
+
+WITNESSES += [
+    Witness("C16.W18", "menpo/model/pca.py", "PCAVectorModel.__setstate__", "    self.__dict__ = state",
+            "    if '_n_active_components' in state:\n        state['_n_active_components'] = int(state['_components'].shape[0])\n    self.__dict__ = state",
+            rule="C16.R9", construct="__setstate__", note="seeded change R5-C16-C (inverted legacy default resets the active components of every unpickled model)"),
+    Witness("C16.W19", "menpo/model/pca.py", "PCAVectorModel.__setstate__", "    self.__dict__ = state",
+            "    if '_n_active_components' not in state:\n        state['_n_active_components'] = int(state['_components'].shape[0])\n    self.__dict__ = state",
+            rule=None, kind="T", note="twin: a default for a key the pickle lacks is a legitimate migration"),
+    Witness("C16.W20", "menpo/landmark/base.py", "LandmarkManager.__setstate__", "    self.__dict__ = state",
+            "    if len(state['_landmark_groups']) > 0:\n        self.__dict__ = state",
+            rule="C16.R9", construct="__setstate__", note="state installed only on some paths"),
 ]
